@@ -12,12 +12,12 @@ def cost (gap ack : Nat) (last : Bool) (n : Nat) : List Bool → Nat
     | _, true => cost gap (ack + 1) true n bs
     | false, false => cost (gap + 1) ack false n bs
 
-/-- strictly more than `cost` ⇒ no `Break`, the last range passes its strict test, and exactly `cost` bytes are used -/
+/-- at least `cost` ⇒ no `Break`, the last range passes its test, and exactly `cost` bytes are used -/
 theorem foldRanges_tight (bs : List Bool) (gap ack : Nat) (last : Bool) (cap : Nat) (rs : List (Nat × Nat))
-    (h : cost gap ack last rs.length bs < cap) :
+    (h : cost gap ack last rs.length bs ≤ cap) :
     let r := foldRanges gap ack last cap rs bs
     r.broke = false ∧
-    (r.last = true → rangeCountIncr r.ranges.length + varintSize (r.gap - 1) + varintSize (r.ack - 1) < r.cap ∧
+    (r.last = true → rangeCountIncr r.ranges.length + varintSize (r.gap - 1) + varintSize (r.ack - 1) ≤ r.cap ∧
       r.cap + cost gap ack last rs.length bs
         = cap + (rangeCountIncr r.ranges.length + varintSize (r.gap - 1) + varintSize (r.ack - 1))) ∧
     (r.last = false → r.cap + cost gap ack last rs.length bs = cap) := by
@@ -40,7 +40,7 @@ theorem foldRanges_tight (bs : List Bool) (gap ack : Nat) (last : Bool) (cap : N
       · have := t3 hl; omega
     · exact ih _ _ _ _ _ h
 
-theorem finalRanges_complete_tight (r : List Bool) (cap0 : Nat) (h : cost 1 0 false 0 r < cap0) :
+theorem finalRanges_complete_tight (r : List Bool) (cap0 : Nat) (h : cost 1 0 false 0 r ≤ cap0) :
     (∃ t, false :: r = coverRanges (finalRanges (foldRanges 1 0 false cap0 [] r)) ++ t ∧ ∀ b ∈ t, b = false) ∧
     rangesSize (finalRanges (foldRanges 1 0 false cap0 [] r)) + varintSize (finalRanges (foldRanges 1 0 false cap0 [] r)).length
       = cost 1 0 false 0 r + 1 := by
@@ -57,6 +57,7 @@ theorem finalRanges_complete_tight (r : List Bool) (cap0 : Nat) (h : cost 1 0 fa
   · rename_i hlast
     obtain ⟨ht, hg, ha⟩ := h3 hlast
     obtain ⟨c1, c2⟩ := hc1 hlast
+    have hsp : GmQuic.Gen.ackLastSpare = 0 := rfl   -- `capacity >= size` (fix-C10-ack-exact-fit)
     rw [if_pos (by omega)]
     constructor
     · rw [h1, coverRanges_append]
@@ -78,9 +79,9 @@ def fullSize (largest delay : Nat) (bs : List Bool) : Nat :=
   1 + varintSize largest + varintSize delay + varintSize (leadTrue bs - 1) + 1
     + cost 1 0 false 0 (bs.drop (min (leadTrue bs + 1) bs.length))
 
-/-- capacity strictly above the complete frame's size ⇒ the frame is complete and has exactly that size -/
+/-- capacity at least the complete frame's size ⇒ the frame is complete and has exactly that size -/
 theorem genFrame_complete_tight (largest delay cap : Nat) (bs : List Bool) (f : AckFrame) (v : Nat)
-    (h : genFrame largest delay cap bs = (.ok f, v)) (h0 : 1 ≤ leadTrue bs) (hroom : fullSize largest delay bs < cap) :
+    (h : genFrame largest delay cap bs = (.ok f, v)) (h0 : 1 ≤ leadTrue bs) (hroom : fullSize largest delay bs ≤ cap) :
     (∃ t, bs = cover f.first f.ranges ++ t ∧ ∀ b ∈ t, b = false) ∧ f.size = fullSize largest delay bs := by
   obtain ⟨hs, hd, hl⟩ := leadTrue_split bs
   have hr : f.ranges = finalRanges (foldRanges 1 0 false
